@@ -4,6 +4,10 @@ import Gql.Generated.ValidationTables
 import Gql.Proofs.RuleReturnsFacts
 import Gql.Proofs.RulesSpec2
 import Gql.Proofs.RulesFuel
+import Gql.Proofs.RulesFuel2
+import Gql.Proofs.RulesSpec4
+import Gql.Proofs.RulesInputFields
+import Gql.Proofs.RulesSpec6
 import Gql.Proofs.RulesLone
 import Gql.Proofs.RulesUniqueOps
 import Gql.Proofs.RulesUniqueFrags
@@ -495,7 +499,8 @@ theorem uniqueVariableNames_iff_spec (tbl : TITable) (L : Lookups τ) (doc : ATr
     validate tbl L none [(uniqueVariableNames doc, RS.init)] doc.erase = [] ↔ Spec.uniqueVariableNames doc :=
   uniqueVariableNames_iff tbl L doc hu
 
-/-- C12-7 `rule_iff_spec`, NoUnusedVariables (partial: the predicate is stated through the context getters).
+/-- C12-7 `rule_iff_spec`, NoUnusedVariables, stated through the context getters (kept; superseded by the fully
+declarative `noUnusedVariables_iff_spec` below, which replaces the getters by the spread graph).
 `validate([NoUnusedVariablesRule])` reports nothing iff every variable an operation defines occurs among the names
 of `get_recursive_variable_usages(operation)` that are not fragment variables, and every variable a fragment
 definition defines occurs among the names of `get_variable_usages(fragment)`.  Missing for a fully declarative
@@ -515,15 +520,255 @@ example : ¬ Spec.uniqueArgumentNames exBDoc ∧ ¬ Spec.uniqueVariableNames exB
    fun h => absurd ((noUnusedVariables_iff_spec_partial tiTable exL exBDoc exB_unique).mpr h) (by decide +kernel)⟩
 
 /-- C12-7 (termination, partial).  The worklist loop of `context.get_fragment_spreads` terminates on every selection
-set: the model's fuel (the number of nodes below the selection set) is never exhausted.  Missing: the same for the
-loops of `get_recursively_referenced_fragments` and `detect_cycle_recursive` (fuel = number of fragment definitions
-+ 1 resp. + 2; exhaustion would surface as a `<fuel>` error / a truncated list in the correspondence runs). -/
+set: the model's fuel (the number of nodes below the selection set) is never exhausted.  The other two fuelled loops
+(`get_recursively_referenced_fragments`, `detect_cycle_recursive`) are `rec_frags_terminates` and
+`detect_cycle_terminates` below; with them no fuelled loop of the modelled rules is left unproved. -/
 theorem fragment_spreads_terminates_partial (selSet : ATree) : (getSpreads selSet).2 = false :=
   spreads_fuel_enough selSet
 
 example : (getSpreads (.node ⟨0, "selection_set"⟩ "" "" [
     .node ⟨1, "field"⟩ "selections" "" [.node ⟨2, "selection_set"⟩ "selection_set" "" [.node ⟨3, "fragment_spread"⟩ "selections" "" []]],
     .node ⟨4, "fragment_spread"⟩ "selections" "" []])).1.map (·.id) = [4, 3] := by decide +kernel
+
+/-- C12-7 (termination) `rec_frags_terminates`.  The `while nodes_to_visit:` loop of
+`context.get_recursively_referenced_fragments(operation)` terminates on every document and every operation node: the
+model's fuel (number of fragment definitions of the document + 1) is never exhausted, so the list the model returns is
+never a truncated one.  No hypothesis on the document (duplicate fragment names, spreads of undefined fragments,
+cycles, missing names and selection sets included).  Argument: a selection set is pushed only together with a newly
+collected name for which `get_fragment` answers, and there are at most as many such names as fragment definitions. -/
+theorem rec_frags_terminates (doc op : ATree) : (getRecFrags doc op).2 = false :=
+  recFrags_fuel_enough doc op
+
+-- `{ ...A }  fragment A on T { ...B ...A }  fragment B on T { ...A ...C }`: a cycle, a self-spread, an unknown name
+private def exGSs : ATree :=
+  .node ⟨2, "selection_set"⟩ "selection_set" "" [
+    .node ⟨3, "fragment_spread"⟩ "selections" "" [.node ⟨4, "name"⟩ "name" "A" []]]
+private def exGOp : ATree := .node ⟨1, "operation_definition"⟩ "definitions" "" [exGSs]
+private def exGDoc : ATree :=
+  .node ⟨0, "document"⟩ "" "" [
+    exGOp,
+    .node ⟨5, "fragment_definition"⟩ "definitions" "" [
+      .node ⟨6, "name"⟩ "name" "A" [],
+      .node ⟨7, "selection_set"⟩ "selection_set" "" [
+        .node ⟨8, "fragment_spread"⟩ "selections" "" [.node ⟨9, "name"⟩ "name" "B" []],
+        .node ⟨10, "fragment_spread"⟩ "selections" "" [.node ⟨11, "name"⟩ "name" "A" []]]],
+    .node ⟨12, "fragment_definition"⟩ "definitions" "" [
+      .node ⟨13, "name"⟩ "name" "B" [],
+      .node ⟨14, "selection_set"⟩ "selection_set" "" [
+        .node ⟨15, "fragment_spread"⟩ "selections" "" [.node ⟨16, "name"⟩ "name" "A" []],
+        .node ⟨17, "fragment_spread"⟩ "selections" "" [.node ⟨18, "name"⟩ "name" "C" []]]]]
+
+-- the loop really runs (two rounds beyond the operation's own set) and the fuel `2 + 1` is used up exactly
+example : (opDefs exGDoc).map (fun op => ((getRecFrags exGDoc op).1.map (·.id), (getRecFrags exGDoc op).2)) =
+    [([5, 12], false)] ∧ (fragDefs exGDoc).length = 2 := by decide +kernel
+
+-- one unit of fuel less and the flag is set: the bound is tight on this document
+example : (refsLoop exGDoc 2 [exGSs] [] []).2 = true := by decide +kernel
+
+/-- C12-7 (termination) `detect_cycle_terminates`.  `NoFragmentCyclesRule.detect_cycle_recursive(fragment)` terminates:
+started by the rule (fuel = number of fragment definitions + 2) on any fragment node, with any `visited_frags`, any
+`spread_path` and `spread_path_index_by_name`, the recursion never exhausts the model's fuel — so the rule never
+reports the `<fuel>` marker, on any document (no well-formedness assumed).  Argument: every recursive call is for the
+fragment `get_fragment` returns for the spread's name; it either finds that name in `visited_frags` and returns, or
+adds it — and at most #definitions distinct names have a definition.  The `+ 2`: one call that finds its name
+visited, and the first call's fragment may be a definition that `get_fragment` does not return (shadowed by a later
+one of the same name).  Also states that `visited_frags` only grows. -/
+theorem detect_cycle_terminates (doc fragment : ATree) (visited : List String) (path : List ATree)
+    (index : List (String × Nat)) :
+    (detectCycle doc (cycleFuel doc) fragment visited path index).ranOut = false ∧
+    ∀ n ∈ visited, n ∈ (detectCycle doc (cycleFuel doc) fragment visited path index).visited :=
+  detectCycle_ok doc (cycleFuel doc) fragment visited path index (fragNames doc) (cover_fragNames doc visited)
+    (Or.inr (by have := fragNames_length_le doc; unfold cycleFuel; omega))
+
+/-- Consequence for the rule: what `NoFragmentCyclesRule.enter_fragment_definition` reports is exactly what
+`detect_cycle_recursive` reports (no `<fuel>` marker is ever appended). -/
+theorem noFragmentCycles_no_fuel_marker (doc n : ATree) (s : RS) :
+    (let r := detectCycle doc (cycleFuel doc) n s.visited [] []
+     r.errs ++ (if r.ranOut then [(⟨"NoFragmentCyclesRule", "<fuel>", []⟩ : RErr)] else [])) =
+    (detectCycle doc (cycleFuel doc) n s.visited [] []).errs := by
+  simp [(detect_cycle_terminates doc n s.visited [] []).1]
+
+-- the recursion really descends (A → B → A closes a cycle, A → A another) and comes back without the flag
+example : (fragDefs exGDoc).map (fun f =>
+      let r := detectCycle exGDoc (cycleFuel exGDoc) f [] [] []
+      (r.visited, r.errs.map (fun e => (e.name, e.nodes)), r.ranOut)) =
+    [(["A", "B"], [("A", [8, 15]), ("A", [10])], false), (["B", "A"], [("B", [15, 8]), ("A", [10])], false)] := by
+  decide +kernel
+
+-- the flag is not constant: with fuel 1 instead of `cycleFuel` (= 4) it is set on this document
+example : (detectCycle exGDoc 1 (.node ⟨5, "fragment_definition"⟩ "definitions" "" [
+      .node ⟨6, "name"⟩ "name" "A" [],
+      .node ⟨7, "selection_set"⟩ "selection_set" "" [
+        .node ⟨8, "fragment_spread"⟩ "selections" "" [.node ⟨9, "name"⟩ "name" "B" []],
+        .node ⟨10, "fragment_spread"⟩ "selections" "" [.node ⟨11, "name"⟩ "name" "A" []]]]) [] [] []).ranOut = true := by
+  decide +kernel
+
+/-- C12-7 (getter = spec) `fragment_spreads_iff_spec`.  `context.get_fragment_spreads(selection_set)` returns exactly
+the fragment spreads of the selection set (`Spec.SpreadIn`: a selection of kind fragment spread, or — recursively — a
+spread of the selection set of a selection that is not a fragment spread: field, inline fragment).  It does not look
+into the fragments the spreads name.  Any tree; no hypothesis. -/
+theorem fragment_spreads_iff_spec (selSet sp : ATree) : sp ∈ (getSpreads selSet).1 ↔ Spec.SpreadIn selSet sp :=
+  getSpreads_mem_iff selSet sp
+
+/-- C12-7 (getter = spec) `rec_frags_iff_reachable`.  `context.get_recursively_referenced_fragments(operation)` is
+reachability in the spread graph: a fragment definition is in the returned list iff it is what `get_fragment` returns
+for a name reachable (`Spec.Reaches`: inductively, a spread of the operation's selection set, or a spread of the
+selection set of the fragment of a reachable name) from the operation's selection set.  Any document (duplicate
+fragment names: edges leave only the *last* definition of a name, as `get_fragment` resolves it; undefined names have no
+outgoing edges; cycles allowed); an operation without selection set gets the empty list
+(`getRecFrags_no_selection_set`). -/
+theorem rec_frags_iff_reachable (doc op ss : ATree) (hss : op.kid "selection_set" = some ss) (f : ATree) :
+    f ∈ (getRecFrags doc op).1 ↔ ∃ n, Spec.Reaches doc ss n ∧ getFragment doc n = some f :=
+  getRecFrags_mem_iff_reaches doc op ss hss f
+
+-- non-vacuity: in `exGDoc` fragment B (node 12) is reached from the operation (through A), a spread (node 3) is found
+example : (∃ sp, sp.id = 3 ∧ Spec.SpreadIn exGSs sp) ∧
+    ∃ f n, f.id = 12 ∧ Spec.Reaches exGDoc exGSs n ∧ getFragment exGDoc n = some f := by
+  constructor
+  · have h : 3 ∈ (getSpreads exGSs).1.map (·.id) := by decide +kernel
+    obtain ⟨sp, hsp, hid⟩ := List.mem_map.mp h
+    exact ⟨sp, hid, (fragment_spreads_iff_spec exGSs sp).mp hsp⟩
+  · have h : 12 ∈ (getRecFrags exGDoc exGOp).1.map (·.id) := by decide +kernel
+    obtain ⟨f, hf, hid⟩ := List.mem_map.mp h
+    obtain ⟨n, hr, hg⟩ := (rec_frags_iff_reachable exGDoc exGOp exGSs (by rfl) f).mp hf
+    exact ⟨f, n, hid, hr, hg⟩
+
+-- and in `exADoc` (`{ ...A }  fragment B on T { ...B }`) no defined fragment is reachable from the operation
+example : ¬ ∃ n f, Spec.Reaches exADoc exGSs n ∧ getFragment exADoc n = some f := by
+  rintro ⟨n, f, hr, hg⟩
+  have := (rec_frags_iff_reachable exADoc exGOp exGSs (by rfl) f).mpr ⟨n, hr, hg⟩
+  have h0 : (getRecFrags exADoc exGOp).1.length = 0 := by decide +kernel
+  rw [List.length_eq_zero_iff] at h0
+  rw [h0] at this
+  simp at this
+
+/-- C12-7 `rule_iff_spec`, NoUnusedFragments (private state `operation_defs` / `fragment_defs`, SKIP at every
+definition, the report at `leave_document`).  On a document — root of kind `document`, no other node of that kind,
+nodes distinct objects; all guaranteed by the parser and decidable — `validate([NoUnusedFragmentsRule])` reports nothing
+iff every fragment definition has a name that is reachable in the spread graph (`Spec.Reaches`) from the selection set
+of some operation definition (and is resolved by `get_fragment`, i.e. the definition is in `document.definitions` —
+automatic for parsed documents).  Purely declarative: no context getter occurs in `Spec.noUnusedFragments`. -/
+theorem noUnusedFragments_iff_spec (tbl : TITable) (L : Lookups τ) (doc : ATree) (hk : doc.kind = "document")
+    (hu : doc.uniqueIds) (hnd : ∀ n ∈ ATree.nodesList doc.children, n.kind ≠ "document") :
+    validate tbl L none [(noUnusedFragments doc, RS.init)] doc.erase = [] ↔ Spec.noUnusedFragments doc :=
+  noUnusedFragments_iff tbl L doc hk hu hnd
+
+example : validate tiTable exL none [(noUnusedFragments exADoc, RS.init)] exADoc.erase =
+    [.error ⟨"NoUnusedFragmentsRule", "B", [5]⟩] := by decide +kernel
+
+-- fails where the rule reports (B is only reachable from itself), holds on a document with a used fragment
+example : ¬ Spec.noUnusedFragments exADoc ∧ Spec.noUnusedFragments exCDoc :=
+  ⟨fun h => absurd ((noUnusedFragments_iff_spec tiTable exL exADoc (by decide +kernel)
+      (by unfold ATree.uniqueIds; decide +kernel) (by decide +kernel)).mpr h) (by decide +kernel),
+   (noUnusedFragments_iff_spec tiTable exL exCDoc (by decide +kernel) exC_unique (by decide +kernel)).mp (by decide +kernel)⟩
+
+/-- C12-7 `rule_iff_spec`, NoUnusedVariables — full.  `validate([NoUnusedVariablesRule])` reports nothing iff every
+variable an operation defines occurs (as a `VariableNode` outside variable definitions) in the operation itself or in
+a fragment reachable from it in the spread graph where it is not shadowed by a fragment variable of that fragment's
+signature, and every variable a fragment definition defines occurs in that fragment.  `Spec.noUnusedVariablesFull`
+mentions only the document (`Spec.Reaches`, the structural `variablesIn`, `get_fragment` as name resolution); the
+context getters `get_recursively_referenced_fragments` / `get_recursive_variable_usages` are gone. -/
+theorem noUnusedVariables_iff_spec (tbl : TITable) (L : Lookups τ) (doc : ATree) (hu : doc.uniqueIds) :
+    validate tbl L none [(noUnusedVariables doc, RS.init)] doc.erase = [] ↔ Spec.noUnusedVariablesFull doc :=
+  noUnusedVariables_iff_full tbl L doc hu
+
+example : Spec.noUnusedVariablesFull exCDoc ∧ ¬ Spec.noUnusedVariablesFull exBDoc :=
+  ⟨(noUnusedVariables_iff_spec tiTable exL exCDoc exC_unique).mp (by decide +kernel),
+   fun h => absurd ((noUnusedVariables_iff_spec tiTable exL exBDoc exB_unique).mpr h) (by decide +kernel)⟩
+
+-- `query Q($a: Int) { ...B }  fragment B on T { f(x: $a) }`: `$a` is used only in the fragment the operation reaches
+private def exHOp : ATree :=
+  .node ⟨1, "operation_definition"⟩ "definitions" "" [
+    .node ⟨2, "name"⟩ "name" "Q" [],
+    .node ⟨3, "variable_definition"⟩ "variable_definitions" "" [
+      .node ⟨4, "variable"⟩ "variable" "" [.node ⟨5, "name"⟩ "name" "a" []], .node ⟨6, "named_type"⟩ "type" "" [.node ⟨7, "name"⟩ "name" "Int" []]],
+    .node ⟨8, "selection_set"⟩ "selection_set" "" [
+      .node ⟨9, "fragment_spread"⟩ "selections" "" [.node ⟨10, "name"⟩ "name" "B" []]]]
+private def exHDoc : ATree :=
+  .node ⟨0, "document"⟩ "" "" [
+    exHOp,
+    .node ⟨11, "fragment_definition"⟩ "definitions" "" [
+      .node ⟨12, "name"⟩ "name" "B" [],
+      .node ⟨13, "named_type"⟩ "type_condition" "" [.node ⟨14, "name"⟩ "name" "T" []],
+      .node ⟨15, "selection_set"⟩ "selection_set" "" [
+        .node ⟨16, "field"⟩ "selections" "" [
+          .node ⟨17, "name"⟩ "name" "f" [],
+          .node ⟨18, "argument"⟩ "arguments" "" [.node ⟨19, "name"⟩ "name" "x" [],
+            .node ⟨20, "variable"⟩ "value" "" [.node ⟨21, "name"⟩ "name" "a" []]]]]]]
+
+-- the spec holds there, and only through the spread graph: the operation itself does not mention `$a`
+example : Spec.noUnusedVariablesFull exHDoc ∧ (variablesIn exHOp).length = 0 :=
+  ⟨(noUnusedVariables_iff_spec tiTable exL exHDoc (by unfold ATree.uniqueIds; decide +kernel)).mp (by decide +kernel),
+   by decide +kernel⟩
+
+/-- C12-7 `rule_iff_spec`, NoUndefinedVariables (private state `defined_variable_names`: reset at every operation,
+extended at every variable definition, read at `leave_operation_definition`).  On a document whose nodes are distinct
+objects and in which no operation definition is nested in another one (`hno`; the parser only produces operations in
+`document.definitions`; decidable) `validate([NoUndefinedVariablesRule])` reports nothing iff every variable definition
+has a name and, for every operation, every variable occurring in the operation or in a fragment it reaches in the
+spread graph (`Spec.Reaches`) — unless it is one of that fragment's own fragment variables — is defined by one of the
+operation's variable definitions.  Declarative: no context getter, no rule state in `Spec.noUndefinedVariables`. -/
+theorem noUndefinedVariables_iff_spec (tbl : TITable) (L : Lookups τ) (doc : ATree) (hu : doc.uniqueIds)
+    (hno : ∀ n ∈ doc.nodes, n.kind = "operation_definition" →
+      ∀ m ∈ ATree.nodesList n.children, m.kind ≠ "operation_definition") :
+    validate tbl L none [(noUndefinedVariables doc, RS.init)] doc.erase = [] ↔ Spec.noUndefinedVariables doc :=
+  noUndefinedVariables_iff tbl L doc hu hno
+
+-- `{ ...B }  fragment B on T { f(x: $a) }`: `$a` is undefined, found through the spread graph only
+private def exKDoc : ATree :=
+  .node ⟨0, "document"⟩ "" "" [
+    .node ⟨1, "operation_definition"⟩ "definitions" "" [
+      .node ⟨8, "selection_set"⟩ "selection_set" "" [
+        .node ⟨9, "fragment_spread"⟩ "selections" "" [.node ⟨10, "name"⟩ "name" "B" []]]],
+    .node ⟨11, "fragment_definition"⟩ "definitions" "" [
+      .node ⟨12, "name"⟩ "name" "B" [],
+      .node ⟨13, "named_type"⟩ "type_condition" "" [.node ⟨14, "name"⟩ "name" "T" []],
+      .node ⟨15, "selection_set"⟩ "selection_set" "" [
+        .node ⟨16, "field"⟩ "selections" "" [
+          .node ⟨17, "name"⟩ "name" "f" [],
+          .node ⟨18, "argument"⟩ "arguments" "" [.node ⟨19, "name"⟩ "name" "x" [],
+            .node ⟨20, "variable"⟩ "value" "" [.node ⟨21, "name"⟩ "name" "a" []]]]]]]
+
+example : validate tiTable exL none [(noUndefinedVariables exKDoc, RS.init)] exKDoc.erase =
+    [.error ⟨"NoUndefinedVariablesRule", "a", [20, 1]⟩] := by decide +kernel
+
+example : ¬ Spec.noUndefinedVariables exKDoc ∧ Spec.noUndefinedVariables exHDoc ∧ Spec.noUndefinedVariables exCDoc :=
+  ⟨fun h => absurd ((noUndefinedVariables_iff_spec tiTable exL exKDoc (by unfold ATree.uniqueIds; decide +kernel)
+      (by decide +kernel)).mpr h) (by decide +kernel),
+   (noUndefinedVariables_iff_spec tiTable exL exHDoc (by unfold ATree.uniqueIds; decide +kernel) (by decide +kernel)).mp (by decide +kernel),
+   (noUndefinedVariables_iff_spec tiTable exL exCDoc exC_unique (by decide +kernel)).mp (by decide +kernel)⟩
+
+/-- C12-7 `rule_iff_spec`, UniqueInputFieldNames (private state: `known_names` and the stack `known_names_stack`
+pushed at `enter_object_value`, popped at `leave_object_value`).  On a document whose nodes are distinct objects,
+`validate([UniqueInputFieldNamesRule])` reports nothing iff in every object value the object fields in its scope (not
+below a deeper object value) have names and these are pairwise distinct — the same name may recur in a nested or a
+sibling object.  In particular the pop never hits an empty stack (no crash marker). -/
+theorem uniqueInputFieldNames_iff_spec (tbl : TITable) (L : Lookups τ) (doc : ATree) (hu : doc.uniqueIds) :
+    validate tbl L none [(uniqueInputFieldNames doc, RS.init)] doc.erase = [] ↔ Spec.uniqueInputFieldNames doc :=
+  uniqueInputFieldNames_iff tbl L doc hu
+
+-- `{ f(x: {a: 1, b: {a: 2}, a: 3}) }`: the nested `a` is fine, the second `a` of the outer object is reported
+private def exIDoc (dup : String) : ATree :=
+  .node ⟨0, "document"⟩ "" "" [
+    .node ⟨1, "operation_definition"⟩ "definitions" "" [
+      .node ⟨2, "selection_set"⟩ "selection_set" "" [
+        .node ⟨3, "field"⟩ "selections" "" [
+          .node ⟨4, "name"⟩ "name" "f" [],
+          .node ⟨5, "argument"⟩ "arguments" "" [
+            .node ⟨6, "name"⟩ "name" "x" [],
+            .node ⟨7, "object_value"⟩ "value" "" [
+              .node ⟨8, "object_field"⟩ "fields" "" [.node ⟨9, "name"⟩ "name" "a" [], .node ⟨10, "int_value"⟩ "value" "" []],
+              .node ⟨11, "object_field"⟩ "fields" "" [.node ⟨12, "name"⟩ "name" "b" [],
+                .node ⟨13, "object_value"⟩ "value" "" [
+                  .node ⟨14, "object_field"⟩ "fields" "" [.node ⟨15, "name"⟩ "name" "a" [], .node ⟨16, "int_value"⟩ "value" "" []]]],
+              .node ⟨17, "object_field"⟩ "fields" "" [.node ⟨18, "name"⟩ "name" dup [], .node ⟨19, "int_value"⟩ "value" "" []]]]]]]]
+
+example : validate tiTable exL none [(uniqueInputFieldNames (exIDoc "a"), RS.init)] (exIDoc "a").erase =
+    [.error ⟨"UniqueInputFieldNamesRule", "a", [9, 18]⟩] := by decide +kernel
+
+example : ¬ Spec.uniqueInputFieldNames (exIDoc "a") ∧ Spec.uniqueInputFieldNames (exIDoc "c") :=
+  ⟨fun h => absurd ((uniqueInputFieldNames_iff_spec tiTable exL (exIDoc "a") (by unfold ATree.uniqueIds; decide +kernel)).mpr h) (by decide +kernel),
+   (uniqueInputFieldNames_iff_spec tiTable exL (exIDoc "c") (by unfold ATree.uniqueIds; decide +kernel)).mp (by decide +kernel)⟩
 
 /-- C12-7 `rule_iff_spec`, LoneAnonymousOperation (a rule with private state: `operation_count` is set at the
 document node and read at every operation).  On a document — root of kind `document`, no other node of that kind,
